@@ -952,6 +952,15 @@ def bounded_instance(assertions, K=2):
     bounds = []
     memo = {}
     ok = [True]
+    known = {}          # terms fixed to an integer by a top-level equality (e.g. len(pin) = 8)
+    for a in assertions:
+        for c in (a.args if a.op == "and" else (a,)):
+            if c.op == "=" and c.args[0].sort == INT:
+                x, y = c.args
+                if y.op == "int":
+                    known[x] = y.val
+                elif x.op == "int":
+                    known[y] = x.val
 
     def rw(t):
         if t in memo:
@@ -982,9 +991,15 @@ def bounded_instance(assertions, K=2):
                     lohi = _range_of(guard, i)
                     if lohi is not None:
                         lo, hi = lohi
-                        bounds.append(Le(Sub(hi, lo), Int(K)))
+                        KK = K
+                        hv = hi.val if hi.op == "int" else known.get(hi)
+                        lv = lo.val if lo.op == "int" else known.get(lo)
+                        if hv is not None and lv is not None and 0 <= hv - lv <= 32:
+                            KK = hv - lv        # range of known size: expanded completely, no restriction
+                        else:
+                            bounds.append(Le(Sub(hi, lo), Int(K)))
                         parts = []
-                        for k in range(K):
+                        for k in range(KK):
                             idx = Add(lo, Int(k))
                             inst = substitute(inner, {i: idx})
                             parts.append(Implies(Lt(idx, hi), inst) if t.op == "forall" else And(Lt(idx, hi), inst))
